@@ -1,6 +1,813 @@
-//! placeholder: filled in by the check that owns this sub-command
+//! C18 — conformance of the standard library with spec/Stdlib.tla and spec/Fs.tla.
+//!
+//!   vh stdlibx table  <obs.ndjson>                                   declared types of every leaf of `std`
+//!   vh stdlibx replay <cases.ndjson> <obs.ndjson> <summary.json> <scratch>
+//!   vh stdlibx random <table.ndjson> <n> <obs.ndjson> <summary.json> <scratch>
+//!   vh stdlibx stdin  <stdin_cases.ndjson> <id> <obs.ndjson> <summary.json>   (stdin supplied by the caller)
+//!   vh stdlibx fs     <dir with fs_*.ndjson> <scratch> <obs.ndjson> <summary.json> <depth> <sample3> <ro:skip|only|all>
+//!
+//! Every call of the code under test is wrapped in `catch`; what happened is written as an
+//! observation (ndjson) that spec/Trace_Stdlib.tla judges (membership in the declared result type,
+//! documented result).  The harness itself only compares a result with a prediction that TLC
+//! emitted (structural equality) and a directory tree with the tree TLC emitted.  std.io.print*
+//! write to this process' stdout, so results go to files, never to stdout.
+use crate::util::{catch, read_ndjson, Mismatches, Rng};
+use crate::wire::{int_from_wire, k, type_from_wire, type_to_wire};
 use serde_json::{Value, json};
+use simplesl::{
+    Code, Interpreter,
+    function::Function,
+    variable::{Array, Mut, Typed, Variable},
+};
+use std::{
+    collections::HashMap,
+    fs,
+    io::Write,
+    os::unix::fs::PermissionsExt,
+    path::{Path, PathBuf},
+    sync::{Arc, RwLock},
+};
 
-pub fn run(_args: &[String]) -> Value {
-    json!({"error": "not implemented"})
+// ------------------------------------------------------------------ wire (this suite: limbs, cps)
+
+fn limbs(x: u64) -> Value {
+    Value::Array((0..8).map(|i| json!((x >> (8 * i)) & 0xff)).collect())
+}
+
+fn from_limbs(v: &Value) -> u64 {
+    let mut x = 0u64;
+    for (i, l) in v.as_array().map(Vec::as_slice).unwrap_or(&[]).iter().enumerate() {
+        x |= (l.as_u64().unwrap() & 0xff) << (8 * i);
+    }
+    x
+}
+
+pub fn vw(v: &Variable, depth: usize) -> Value {
+    if depth > 12 {
+        return json!({"k": "deep"});
+    }
+    match v {
+        Variable::Bool(b) => json!({"k": "bool", "v": b}),
+        Variable::Int(n) => json!({"k": "int", "l": limbs(*n as u64)}),
+        Variable::Float(f) => json!({"k": "float", "bl": limbs(f.to_bits())}),
+        Variable::String(s) => json!({"k": "string", "cps": s.chars().map(|c| c as u32).collect::<Vec<_>>()}),
+        Variable::Void => json!({"k": "void"}),
+        Variable::Array(a) => json!({"k": "array", "tag": type_to_wire(a.element_type()),
+            "es": a.iter().map(|e| vw(e, depth + 1)).collect::<Vec<_>>()}),
+        Variable::Tuple(es) => json!({"k": "tuple", "es": es.iter().map(|e| vw(e, depth + 1)).collect::<Vec<_>>()}),
+        Variable::Struct(vm) => {
+            let mut fs: Vec<(String, Value)> = vm.iter().map(|(n, x)| (n.to_string(), vw(x, depth + 1))).collect();
+            fs.sort_by(|a, b| a.0.cmp(&b.0));
+            json!({"k": "struct", "fs": fs.into_iter().map(|(n, x)| json!([n, x])).collect::<Vec<_>>()})
+        }
+        Variable::Mut(cell) => {
+            let content = match cell.variable.try_read() {
+                Ok(g) => {
+                    let c = g.clone();
+                    drop(g);
+                    vw(&c, depth + 1)
+                }
+                Err(_) => json!({"k": "locked"}),
+            };
+            json!({"k": "cell", "ty": type_to_wire(&cell.var_type), "c": content})
+        }
+        Variable::Function(f) => json!({"k": "fnv", "sig": type_to_wire(&f.as_type())}),
+    }
+}
+
+fn cps_string(v: &Value) -> String {
+    v["cps"].as_array().map(Vec::as_slice).unwrap_or(&[]).iter()
+        .map(|c| char::from_u32(c.as_u64().unwrap() as u32).unwrap()).collect()
+}
+
+fn pairs(v: &Value) -> Vec<(String, Value)> {
+    v["fs"].as_array().map(Vec::as_slice).unwrap_or(&[]).iter()
+        .map(|p| (p[0].as_str().unwrap().to_string(), p[1].clone())).collect()
+}
+
+/// SimpleSL source text for a wire value; values without a literal form (NaN, infinities) are
+/// bound to fresh names in `binds`.
+fn render(v: &Value, binds: &mut Vec<(String, Variable)>) -> String {
+    match k(v) {
+        "bool" => v["v"].as_bool().unwrap().to_string(),
+        "int" => {
+            let n = int_from_wire(v);
+            if n == i64::MIN { "(-9223372036854775807 - 1)".into() } else if n < 0 { format!("({n})") } else { n.to_string() }
+        }
+        "float" => {
+            let f = f64::from_bits(from_limbs(&v["bl"]));
+            if f.is_finite() && !(f == 0.0 && f.is_sign_negative()) {
+                let t = format!("{f:?}");
+                if f < 0.0 { format!("({t})") } else { t }
+            } else {
+                let name = format!("a{}", binds.len());
+                binds.push((name.clone(), Variable::Float(f)));
+                name
+            }
+        }
+        "string" => {
+            let mut s = String::from("\"");
+            for c in cps_string(v).chars() {
+                match c {
+                    '"' => s.push_str("\\\""),
+                    '\\' => s.push_str("\\\\"),
+                    c if (c as u32) < 0x20 || c as u32 == 0x7f => s.push_str(&format!("\\u{{{:x}}}", c as u32)),
+                    c => s.push(c),
+                }
+            }
+            s.push('"');
+            s
+        }
+        "void" => "()".into(),
+        "array" => format!("[{}]", v["es"].as_array().unwrap().iter().map(|e| render(e, binds)).collect::<Vec<_>>().join(", ")),
+        "tuple" => format!("({})", v["es"].as_array().unwrap().iter().map(|e| render(e, binds)).collect::<Vec<_>>().join(", ")),
+        "struct" => format!("struct{{{}}}", pairs(v).iter().map(|(n, x)| format!("{n} := {}", render(x, binds))).collect::<Vec<_>>().join(", ")),
+        "cell" => format!("mut {} {}", crate::wire::type_text(&v["ty"], 0), render(&v["c"], binds)),
+        "fnv" => match v["src"].as_str() {
+            Some("iter") => format!("{}~", render(&v["of"], binds)),
+            _ => "(x: int) -> int { return x }".into(),
+        },
+        other => panic!("cannot render wire kind {other}"),
+    }
+}
+
+/// The host-side value for a wire value (function values are built by running their source).
+fn build(v: &Value, interp: &Interpreter) -> Variable {
+    match k(v) {
+        "bool" => Variable::Bool(v["v"].as_bool().unwrap()),
+        "int" => Variable::Int(int_from_wire(v)),
+        "float" => Variable::Float(f64::from_bits(from_limbs(&v["bl"]))),
+        "string" => Variable::String(cps_string(v).into()),
+        "void" => Variable::Void,
+        "array" => {
+            let es: Arc<[Variable]> = v["es"].as_array().unwrap().iter().map(|e| build(e, interp)).collect();
+            Array::new_with_type(type_from_wire(&v["tag"]), es).into()
+        }
+        "tuple" => Variable::Tuple(v["es"].as_array().unwrap().iter().map(|e| build(e, interp)).collect()),
+        "struct" => {
+            let vm: HashMap<Arc<str>, Variable> = pairs(v).into_iter().map(|(n, x)| (Arc::from(n.as_str()), build(&x, interp))).collect();
+            Variable::Struct(Arc::new(vm))
+        }
+        "cell" => Variable::Mut(Arc::new(Mut { var_type: type_from_wire(&v["ty"]), variable: RwLock::new(build(&v["c"], interp)) })),
+        "fnv" => {
+            let mut binds = vec![];
+            let text = render(v, &mut binds);
+            let mut layer = interp.create_layer();
+            for (n, x) in binds {
+                layer.insert(n.as_str().into(), x);
+            }
+            Code::parse(&layer, &text).expect("harness: argument source does not parse").exec().expect("harness: argument source fails")
+        }
+        other => panic!("cannot build wire kind {other}"),
+    }
+}
+
+fn strip_tags(v: &Value) -> Value {
+    match v {
+        Value::Object(m) => {
+            let mut o = serde_json::Map::new();
+            for (key, x) in m {
+                if !(key == "tag" && m.get("k").and_then(Value::as_str) == Some("array")) {
+                    o.insert(key.clone(), strip_tags(x));
+                }
+            }
+            Value::Object(o)
+        }
+        Value::Array(a) => Value::Array(a.iter().map(strip_tags).collect()),
+        x => x.clone(),
+    }
+}
+
+// ------------------------------------------------------------------ calling
+
+struct Lib {
+    interp: Interpreter<'static>,
+}
+
+impl Lib {
+    fn new() -> Self {
+        Lib { interp: Interpreter::with_stdlib() }
+    }
+
+    /// the value at `std.a.b`
+    fn leaf(&self, name: &str) -> Option<Variable> {
+        let mut parts = name.split('.');
+        let mut cur = self.interp.get_variable(parts.next()?)?.clone();
+        for p in parts {
+            let Variable::Struct(vm) = &cur else { return None };
+            cur = vm.get(p)?.clone();
+        }
+        Some(cur)
+    }
+
+    fn outcome(res: Result<Result<Variable, String>, String>) -> Value {
+        match res {
+            Err(p) => json!({"k": "panic", "msg": p}),
+            Ok(Err(e)) => e.parse::<Value>().unwrap_or(json!({"k": "error", "msg": e})),
+            Ok(Ok(v)) => json!({"k": "value", "v": vw(&v, 0)}),
+        }
+    }
+
+    /// through a generated SimpleSL program
+    fn call_prog(&self, name: &str, args: &[Value], is_const: bool) -> (Value, String) {
+        let mut binds = vec![];
+        let text = if is_const { name.to_string() } else {
+            format!("{name}({})", args.iter().map(|a| render(a, &mut binds)).collect::<Vec<_>>().join(", "))
+        };
+        let res = catch(|| {
+            let mut layer = self.interp.create_layer();
+            for (n, x) in &binds {
+                layer.insert(n.as_str().into(), x.clone());
+            }
+            let code = Code::parse(&layer, &text).map_err(|e| json!({"k": "rejected", "msg": e.to_string()}).to_string())?;
+            code.exec().map_err(|e| json!({"k": "error", "msg": e.to_string()}).to_string())
+        });
+        (Self::outcome(res), text)
+    }
+
+    /// through the host API: the function value from the `std` struct and Function::create_call
+    fn call_host(&self, name: &str, args: &[Value], is_const: bool) -> Value {
+        let res = catch(|| {
+            let leaf = self.leaf(name).ok_or_else(|| json!({"k": "rejected", "msg": "no such export"}).to_string())?;
+            if is_const {
+                return Ok(leaf);
+            }
+            let Variable::Function(f) = leaf else {
+                return Err(json!({"k": "rejected", "msg": "export is not a function"}).to_string());
+            };
+            let argv: Vec<Variable> = args.iter().map(|a| build(a, &self.interp)).collect();
+            let code = f.create_call(argv).map_err(|e| json!({"k": "rejected", "msg": e.to_string()}).to_string())?;
+            code.exec().map_err(|e| json!({"k": "error", "msg": e.to_string()}).to_string())
+        });
+        Self::outcome(res)
+    }
+}
+
+fn flatten_std(prefix: &str, v: &Variable, out: &mut Vec<Value>) {
+    match v {
+        Variable::Struct(vm) => {
+            let mut names: Vec<&Arc<str>> = vm.keys().collect();
+            names.sort();
+            for n in names {
+                flatten_std(&format!("{prefix}.{n}"), &vm[n], out);
+            }
+        }
+        Variable::Function(f) => {
+            let f: &Arc<Function> = f;
+            out.push(json!({"ev": "decl", "name": prefix, "kind": "fn", "t": type_to_wire(&f.as_type())}));
+        }
+        other => out.push(json!({"ev": "decl", "name": prefix, "kind": "const", "t": type_to_wire(&other.as_type())})),
+    }
+}
+
+fn write_lines(path: &str, rows: &[Value]) {
+    let mut f = std::io::BufWriter::new(fs::File::create(path).unwrap_or_else(|e| panic!("cannot create {path}: {e}")));
+    for r in rows {
+        writeln!(f, "{}", serde_json::to_string(r).unwrap()).unwrap();
+    }
+}
+
+fn write_json(path: &str, v: &Value) {
+    fs::write(path, serde_json::to_string(v).unwrap()).unwrap_or_else(|e| panic!("cannot write {path}: {e}"));
+}
+
+fn enter_scratch(dir: &str) {
+    fs::create_dir_all(dir).unwrap();
+    std::env::set_current_dir(dir).unwrap();
+}
+
+// ------------------------------------------------------------------ table
+
+fn table(out: &str) -> Value {
+    let lib = Lib::new();
+    let mut rows = vec![];
+    match catch(|| lib.leaf("std")) {
+        Ok(Some(std)) => flatten_std("std", &std, &mut rows),
+        _ => rows.push(json!({"ev": "decl", "name": "std", "kind": "missing", "t": {"k": "never"}})),
+    }
+    write_lines(out, &rows);
+    json!({"decls": rows.len()})
+}
+
+// ------------------------------------------------------------------ replay of TLC's cases
+
+fn run_case(lib: &Lib, id: &Value, name: &str, args: &[Value], pred: &Value, is_const: bool,
+            obs: &mut Vec<Value>, mm: &mut Mismatches, samples: &mut Vec<Value>) -> (u64, u64) {
+    let (p_out, text) = lib.call_prog(name, args, is_const);
+    let h_out = lib.call_host(name, args, is_const);
+    let mut exact = 0;
+    for (route, out) in [("prog", &p_out), ("host", &h_out)] {
+        obs.push(json!({"ev": "call", "id": id, "name": name, "route": route, "args": args, "out": out, "text": text}));
+        if k(out) != "value" {
+            mm.push(k(out), json!({"id": id, "name": name, "route": route, "program": text, "args": args, "observed": out}));
+        } else if k(pred) == "exact" {
+            exact += 1;
+            if strip_tags(&out["v"]) != strip_tags(&pred["v"]) {
+                mm.push("result", json!({"id": id, "name": name, "route": route, "program": text, "args": args,
+                    "expected": pred["v"], "observed": out["v"]}));
+            }
+        }
+    }
+    if k(&p_out) == "value" && k(&h_out) == "value" && strip_tags(&p_out["v"]) != strip_tags(&h_out["v"])
+        && !(name.starts_with("std.io.") || name.starts_with("std.fs.")) {
+        mm.push("routes", json!({"id": id, "name": name, "program": text, "args": args, "prog": p_out["v"], "host": h_out["v"]}));
+    }
+    if samples.len() < 4 && k(pred) == "exact" && id.as_u64().unwrap_or(0) % 577 == 3 {
+        samples.push(json!({"program": text, "expected": pred["v"], "observed": p_out}));
+    }
+    (2, exact)
+}
+
+fn replay(cases: &str, obs_path: &str, summary: &str, scratch: &str) -> Value {
+    enter_scratch(scratch);
+    let lib = Lib::new();
+    let rows = read_ndjson(cases);
+    let mut obs = vec![];
+    let mut mm = Mismatches::new(200);
+    let mut samples = vec![];
+    let (mut calls, mut exact) = (0u64, 0u64);
+    let mut names = std::collections::BTreeSet::new();
+    for row in &rows {
+        let name = row["name"].as_str().unwrap();
+        names.insert(name.to_string());
+        let args = row["args"].as_array().cloned().unwrap_or_default();
+        let is_const = lib.leaf(name).map_or(false, |v| !matches!(v, Variable::Function(_))) && args.is_empty();
+        let (c, e) = run_case(&lib, &row["id"], name, &args, &row["pred"], is_const, &mut obs, &mut mm, &mut samples);
+        calls += c;
+        exact += e;
+    }
+    write_lines(obs_path, &obs);
+    let s = json!({"cases": rows.len(), "calls": calls, "exact_compared": exact, "exports_called": names.len(),
+        "mismatch_counts": mm.counts(), "mismatches": mm.items(), "samples": samples});
+    write_json(summary, &s);
+    json!({"done": "replay"})
+}
+
+// ------------------------------------------------------------------ seeded random arguments
+
+const ALPHABET: &[u32] = &[97, 98, 65, 90, 44, 32, 9, 10, 233, 223, 304, 26085, 128512, 12288, 133, 0, 34, 92,
+    48, 49, 57, 45, 43, 95, 160, 8203, 0x10FFFF, 0xD7FF, 0xE000];
+
+fn rand_string(rng: &mut Rng, max: usize) -> Vec<u32> {
+    (0..rng.below(max + 1)).map(|_| *rng.pick(ALPHABET)).collect()
+}
+
+fn rand_int(rng: &mut Rng) -> u64 {
+    match rng.below(6) {
+        0 => rng.below(300) as u64,
+        1 => (rng.below(300) as i64).wrapping_neg() as u64,
+        2 => {
+            let p = 1u64 << rng.below(64);
+            match rng.below(3) { 0 => p, 1 => p.wrapping_sub(1), _ => p.wrapping_add(1) }
+        }
+        3 => *rng.pick(&[i64::MIN as u64, i64::MAX as u64, u64::MAX, 0, 1, 10, 100, 1_000_000_007, 0xFF00FF00FF00FF00]),
+        _ => rng.next(),
+    }
+}
+
+fn rand_float(rng: &mut Rng) -> u64 {
+    match rng.below(5) {
+        0 => ((rng.below(4001) as f64 - 2000.0) / 2.0).to_bits(),
+        1 => *rng.pick(&[f64::NAN.to_bits(), f64::INFINITY.to_bits(), f64::NEG_INFINITY.to_bits(), (-0.0f64).to_bits(),
+            f64::MAX.to_bits(), f64::MIN_POSITIVE.to_bits(), 1, 0, 9.223372036854775807e18f64.to_bits(), (-9.3e18f64).to_bits()]),
+        2 => ((rng.next() % 33_554_431) as f64 / 2.0 - 8_000_000.0).to_bits(),
+        _ => rng.next(),
+    }
+}
+
+fn int_w(x: u64) -> Value { json!({"k": "int", "l": limbs(x)}) }
+fn float_w(b: u64) -> Value { json!({"k": "float", "bl": limbs(b)}) }
+fn str_w(cps: &[u32]) -> Value { json!({"k": "string", "cps": cps}) }
+
+fn rand_value(t: &Value, rng: &mut Rng, depth: usize) -> Value {
+    match k(t) {
+        "int" => int_w(rand_int(rng)),
+        "float" => float_w(rand_float(rng)),
+        "bool" => json!({"k": "bool", "v": rng.chance(1, 2)}),
+        "string" => str_w(&rand_string(rng, 8)),
+        "void" => json!({"k": "void"}),
+        "any" => {
+            let pick = ["int", "float", "bool", "string", "void", "array"][rng.below(if depth > 1 { 5 } else { 6 })];
+            if pick == "array" {
+                rand_value(&json!({"k": "array", "e": {"k": *rng.pick(&["int", "string", "float", "any"])}}), rng, depth + 1)
+            } else {
+                rand_value(&json!({"k": pick}), rng, depth + 1)
+            }
+        }
+        "array" => {
+            let n = rng.below(5);
+            let es: Vec<Value> = (0..n).map(|_| rand_value(&t["e"], rng, depth + 1)).collect();
+            // hidden tag: the declared element type when it is concrete, else what the elements are
+            let tag = if k(&t["e"]) == "any" || es.is_empty() {
+                let mut kinds: Vec<Value> = es.iter().map(value_type).collect();
+                kinds.sort_by_key(|v| v.to_string());
+                kinds.dedup();
+                match kinds.len() { 0 => json!({"k": "never"}), 1 => kinds[0].clone(), _ => json!({"k": "multi", "ms": kinds}) }
+            } else { t["e"].clone() };
+            json!({"k": "array", "tag": tag, "es": es})
+        }
+        "multi" => {
+            let ms = t["ms"].as_array().unwrap();
+            rand_value(rng.pick(ms), rng, depth)
+        }
+        "fn" => {
+            // only iterators () -> (bool, T) occur as parameters
+            let et = t["r"]["es"][1].clone();
+            let arr = rand_value(&json!({"k": "array", "e": et}), rng, depth + 1);
+            let sig_e = if arr["es"].as_array().unwrap().is_empty() { json!({"k": "never"}) } else { et };
+            json!({"k": "fnv", "src": "iter", "of": arr,
+                   "sig": {"k": "fn", "ps": [], "r": {"k": "tuple", "es": [{"k": "bool"}, sig_e]}}})
+        }
+        other => panic!("random value of type kind {other}"),
+    }
+}
+
+fn value_type(v: &Value) -> Value {
+    match k(v) {
+        "array" => json!({"k": "array", "e": v["tag"]}),
+        other => json!({"k": other}),
+    }
+}
+
+fn utf8ish(rng: &mut Rng) -> Value {
+    let s: String = rand_string(rng, 4).iter().map(|c| char::from_u32(*c).unwrap()).collect();
+    let mut bytes: Vec<i64> = s.bytes().map(|b| b as i64).collect();
+    match rng.below(6) {
+        0 if !bytes.is_empty() => { let i = rng.below(bytes.len()); bytes[i] = rng.below(256) as i64; }
+        1 if !bytes.is_empty() => { let i = rng.below(bytes.len()); bytes.remove(i); }
+        2 => { let i = rng.below(bytes.len() + 1); bytes.insert(i, *rng.pick(&[256, -1, 300, 321, 1 << 40, i64::MIN, 128, 255, 192])); }
+        _ => {}
+    }
+    json!({"k": "array", "tag": if bytes.is_empty() { json!({"k": "never"}) } else { json!({"k": "int"}) },
+           "es": bytes.iter().map(|b| int_w(*b as u64)).collect::<Vec<_>>()})
+}
+
+fn int_text(rng: &mut Rng) -> Vec<u32> {
+    let mut s: Vec<u32> = vec![];
+    match rng.below(4) { 0 => s.push(45), 1 => s.push(43), _ => {} }
+    match rng.below(4) {
+        0 => { let n = rng.next(); s.extend(n.to_string().chars().map(|c| c as u32)); }
+        1 => { let base = 9223372036854775807u128 + rng.below(5) as u128 - 2; s.extend(base.to_string().chars().map(|c| c as u32)); }
+        2 => { for _ in 0..rng.below(25) { s.push(48 + rng.below(10) as u32); } }
+        _ => { s.extend((rng.below(100000) as u64).to_string().chars().map(|c| c as u32)); }
+    }
+    if rng.chance(1, 8) { let i = rng.below(s.len() + 1); s.insert(i, *rng.pick(&[32, 95, 45, 97, 46, 1635])); }
+    s
+}
+
+fn random(table_path: &str, n: usize, obs_path: &str, summary: &str, scratch: &str) -> Value {
+    enter_scratch(scratch);
+    let lib = Lib::new();
+    let table: Vec<Value> = read_ndjson(table_path).into_iter()
+        .filter(|e| e["kind"] == "fn")
+        .filter(|e| { let n = e["name"].as_str().unwrap(); !n.starts_with("std.fs.") && n != "std.io.cgetline" })
+        .collect();
+    let mut rng = Rng::from_env(0xC18);
+    let mut obs = vec![];
+    let mut mm = Mismatches::new(100);
+    let mut calls = 0u64;
+    for i in 0..n {
+        let e = &table[i % table.len()];
+        let name = e["name"].as_str().unwrap();
+        if name.starts_with("std.io.print") && i / table.len() % 16 != 0 {
+            continue; // a little of the stdout noise is enough
+        }
+        let ps = e["ps"].as_array().unwrap();
+        let mut args: Vec<Value> = ps.iter().map(|t| rand_value(t, &mut rng, 0)).collect();
+        match name {
+            "std.string.str_from_utf8" | "std.string.str_from_utf8_lossy" => args[0] = utf8ish(&mut rng),
+            "std.convert.parse_int" if rng.chance(3, 4) => args[0] = str_w(&int_text(&mut rng)),
+            _ => {}
+        }
+        // patterns that occur: a later string parameter is often a piece of the first
+        if ps.len() >= 2 && k(&ps[0]) == "string" && k(&ps[1]) == "string" && rng.chance(1, 2) {
+            let subj: Vec<u32> = args[0]["cps"].as_array().unwrap().iter().map(|c| c.as_u64().unwrap() as u32).collect();
+            if !subj.is_empty() {
+                let a = rng.below(subj.len());
+                let b = a + 1 + rng.below((subj.len() - a).min(2));
+                args[1] = str_w(&subj[a..b.min(subj.len())]);
+            }
+        }
+        let id = json!(format!("r{i}"));
+        let route_host = rng.chance(1, 2);
+        let (out, text) = if route_host { (lib.call_host(name, &args, false), String::new()) } else { lib.call_prog(name, &args, false) };
+        calls += 1;
+        if k(&out) != "value" {
+            mm.push(k(&out), json!({"id": id, "name": name, "route": if route_host { "host" } else { "prog" },
+                "program": text, "args": args, "observed": out}));
+        }
+        obs.push(json!({"ev": "call", "id": id, "name": name, "route": if route_host { "host" } else { "prog" }, "args": args, "out": out, "text": text}));
+    }
+    write_lines(obs_path, &obs);
+    write_json(summary, &json!({"calls": calls, "mismatch_counts": mm.counts(), "mismatches": mm.items()}));
+    json!({"done": "random"})
+}
+
+// ------------------------------------------------------------------ cgetline
+
+fn stdin_mode(cases: &str, id: u64, obs_path: &str, summary: &str) -> Value {
+    let lib = Lib::new();
+    let case = read_ndjson(cases).into_iter().find(|c| c["id"].as_u64() == Some(id)).expect("no such stdin case");
+    let n = case["n"].as_u64().unwrap() as usize;
+    let mut obs = vec![];
+    let mut mm = Mismatches::new(50);
+    for i in 0..n {
+        let route = if (i + id as usize) % 2 == 0 { "prog" } else { "host" };
+        let out = if route == "prog" { lib.call_prog("std.io.cgetline", &[], false).0 } else { lib.call_host("std.io.cgetline", &[], false) };
+        let exp = &case["expect"][i];
+        let ok = match k(exp) {
+            "exact" => k(&out) == "value" && out["v"] == exp["v"],
+            _ => k(&out) == "value" && k(&out["v"]) == "struct",
+        };
+        if !ok {
+            mm.push("cgetline", json!({"id": id, "call": i + 1, "route": route, "stdin": case["stdin"], "expected": exp, "observed": out}));
+        }
+        obs.push(json!({"ev": "stdin", "id": id, "i": i + 1, "n": n, "route": route, "stdin": case["stdin"], "out": out}));
+    }
+    write_lines(obs_path, &obs);
+    write_json(summary, &json!({"calls": n, "mismatch_counts": mm.counts(), "mismatches": mm.items()}));
+    json!({"done": "stdin"})
+}
+
+// ------------------------------------------------------------------ file system behaviours
+
+const BAD_UTF8: &str = "<not utf-8>";
+
+fn unlock(dir: &Path) {
+    if let Ok(md) = fs::symlink_metadata(dir) {
+        if md.is_dir() {
+            let _ = fs::set_permissions(dir, fs::Permissions::from_mode(0o755));
+            if let Ok(rd) = fs::read_dir(dir) {
+                for e in rd.flatten() {
+                    unlock(&e.path());
+                }
+            }
+        }
+    }
+}
+
+fn wipe(root: &Path) {
+    unlock(root);
+    if let Ok(rd) = fs::read_dir(root) {
+        for e in rd.flatten() {
+            let p = e.path();
+            if p.is_dir() { fs::remove_dir_all(&p).unwrap() } else { fs::remove_file(&p).unwrap() }
+        }
+    }
+}
+
+fn content_bytes(token: &str) -> Vec<u8> {
+    if token == BAD_UTF8 { vec![0xff, 0xfe] } else { token.as_bytes().to_vec() }
+}
+
+/// establish a tree given as the specification's flat listing (parents come first)
+fn setup(root: &Path, flat: &Value) {
+    wipe(root);
+    let items = flat.as_array().unwrap();
+    for it in items {
+        let p = root.join(it["p"].as_str().unwrap());
+        if it["k"] == "dir" { fs::create_dir(&p).unwrap() } else { fs::write(&p, content_bytes(it["c"].as_str().unwrap())).unwrap() }
+    }
+    for it in items.iter().rev() {
+        if it["k"] == "dir" && it["ro"] == true {
+            fs::set_permissions(root.join(it["p"].as_str().unwrap()), fs::Permissions::from_mode(0o555)).unwrap();
+        }
+    }
+}
+
+/// the real tree in the specification's flat form
+fn walk(root: &Path, prefix: &str, out: &mut Vec<Value>) {
+    let mut names: Vec<String> = match fs::read_dir(root.join(prefix)) {
+        Ok(rd) => rd.flatten().map(|e| e.file_name().to_string_lossy().into_owned()).collect(),
+        Err(e) => { out.push(json!({"p": prefix, "k": "unreadable", "c": e.to_string(), "ro": false})); return; }
+    };
+    names.sort();
+    for n in names {
+        let rel = if prefix.is_empty() { n.clone() } else { format!("{prefix}/{n}") };
+        let full = root.join(&rel);
+        let md = fs::symlink_metadata(&full).unwrap();
+        if md.is_dir() {
+            out.push(json!({"p": rel, "k": "dir", "c": "", "ro": md.permissions().mode() & 0o200 == 0}));
+            walk(root, &rel, out);
+        } else if md.is_file() {
+            let bytes = fs::read(&full).unwrap_or_default();
+            let c = match String::from_utf8(bytes) { Ok(s) => s, Err(_) => BAD_UTF8.to_string() };
+            out.push(json!({"p": rel, "k": "file", "c": c, "ro": false}));
+        } else {
+            out.push(json!({"p": rel, "k": "other", "c": "", "ro": false}));
+        }
+    }
+}
+
+fn permissions_enforced(root: &Path) -> bool {
+    let probe = root.join("probe_ro");
+    let _ = fs::create_dir(&probe);
+    fs::set_permissions(&probe, fs::Permissions::from_mode(0o555)).unwrap();
+    let enforced = fs::File::create(probe.join("f")).is_err();
+    let _ = fs::set_permissions(&probe, fs::Permissions::from_mode(0o755));
+    let _ = fs::remove_dir_all(&probe);
+    enforced
+}
+
+struct FsModel {
+    calls: Vec<Value>,
+    inits: Vec<Value>,
+    /// canonical tree text -> transitions per call: (ok, ret, tree afterwards)
+    next: HashMap<String, Vec<(bool, String, Value)>>,
+}
+
+fn load_fs(dir: &str) -> FsModel {
+    let calls = read_ndjson(&format!("{dir}/fs_calls.ndjson"));
+    let inits = read_ndjson(&format!("{dir}/fs_inits.ndjson"));
+    let mut next = HashMap::new();
+    for row in read_ndjson(&format!("{dir}/fs_graph.ndjson")) {
+        let key = row["s"].to_string();
+        let trans = row["next"].as_array().unwrap().iter().map(|t| {
+            if t["ok"] == 1 { (true, t["ret"].as_str().unwrap().to_string(), t["t"].clone()) } else { (false, "err".to_string(), row["s"].clone()) }
+        }).collect();
+        next.insert(key, trans);
+    }
+    FsModel { calls, inits, next }
+}
+
+struct FsRun<'a> {
+    lib: &'a Lib,
+    root: PathBuf,
+    model: &'a FsModel,
+    progs: HashMap<usize, Code>,
+    fns: HashMap<String, Arc<Function>>,
+    mm: Mismatches,
+    results: HashMap<String, Value>,
+    behaviours: u64,
+    calls: u64,
+    ok_calls: u64,
+    counter: u64,
+    samples: Vec<Value>,
+}
+
+impl FsRun<'_> {
+    fn abs(&self, rel: &str) -> String {
+        self.root.join(rel).to_string_lossy().into_owned()
+    }
+
+    fn call_text(&self, c: &Value) -> (String, Vec<Value>) {
+        let f = c["f"].as_str().unwrap();
+        let mut args = vec![str_w(&self.abs(c["p"].as_str().unwrap()).chars().map(|ch| ch as u32).collect::<Vec<_>>())];
+        if !c["q"].as_str().unwrap().is_empty() {
+            args.push(str_w(&self.abs(c["q"].as_str().unwrap()).chars().map(|ch| ch as u32).collect::<Vec<_>>()));
+        }
+        if f == "write_to_file" {
+            args.push(str_w(&c["c"].as_str().unwrap().chars().map(|ch| ch as u32).collect::<Vec<_>>()));
+        }
+        let mut b = vec![];
+        (format!("std.fs.{f}({})", args.iter().map(|a| render(a, &mut b)).collect::<Vec<_>>().join(", ")), args)
+    }
+
+    /// run one call for real; `route` 0 = program, 1 = host API
+    fn exec(&mut self, ci: usize, route: u64) -> Value {
+        let c = self.model.calls[ci].clone();
+        let (text, args) = self.call_text(&c);
+        let name = format!("std.fs.{}", c["f"].as_str().unwrap());
+        let out = if route == 0 {
+            if !self.progs.contains_key(&ci) {
+                match catch(|| Code::parse(&self.lib.interp, &text)) {
+                    Ok(Ok(code)) => { self.progs.insert(ci, code); }
+                    Ok(Err(e)) => return json!({"k": "rejected", "msg": e.to_string()}),
+                    Err(p) => return json!({"k": "panic", "msg": p}),
+                }
+            }
+            let code = &self.progs[&ci];
+            Lib::outcome(catch(|| code.exec().map_err(|e| json!({"k": "error", "msg": e.to_string()}).to_string())))
+        } else {
+            if !self.fns.contains_key(&name) {
+                match self.lib.leaf(&name) {
+                    Some(Variable::Function(f)) => { self.fns.insert(name.clone(), f); }
+                    _ => return json!({"k": "rejected", "msg": "no such export"}),
+                }
+            }
+            let f = self.fns[&name].clone();
+            let lib = self.lib;
+            Lib::outcome(catch(|| {
+                let argv: Vec<Variable> = args.iter().map(|a| build(a, &lib.interp)).collect();
+                let code = f.create_call(argv).map_err(|e| json!({"k": "rejected", "msg": e.to_string()}).to_string())?;
+                code.exec().map_err(|e| json!({"k": "error", "msg": e.to_string()}).to_string())
+            }))
+        };
+        // distinct (function, result) pairs are judged by TLC for membership in the declared type
+        let key = format!("{name} {}", out);
+        if self.results.len() < 4000 && !self.results.contains_key(&key) {
+            self.results.insert(key, json!({"ev": "call", "id": format!("fs{}", self.results.len()), "name": name,
+                "route": if route == 0 { "prog" } else { "host" }, "args": args, "out": out, "text": text}));
+        }
+        out
+    }
+
+    /// replay one behaviour from initial tree `ini`; returns false on the first disagreement
+    fn behaviour(&mut self, ini: usize, seq: &[usize]) -> bool {
+        let model = self.model;
+        let mut state = model.inits[ini]["s"].clone();
+        setup(&self.root, &state);
+        self.behaviours += 1;
+        self.counter += 1;
+        for (step, &ci) in seq.iter().enumerate() {
+            let Some(trans) = model.next.get(&state.to_string()) else { panic!("harness: tree not in the emitted graph: {state}") };
+            let (ok, ret, after) = &trans[ci];
+            let route = (self.counter + step as u64) % 2;
+            let out = self.exec(ci, route);
+            self.calls += 1;
+            let class = if k(&out) != "value" { k(&out).to_string() } else {
+                match k(&out["v"]) {
+                    "void" => "void".to_string(),
+                    "string" => cps_string(&out["v"]),
+                    "struct" => "err".to_string(),
+                    other => format!("unexpected {other}"),
+                }
+            };
+            let mut tree = vec![];
+            walk(&self.root, "", &mut tree);
+            let tree = Value::Array(tree);
+            let expected_class = if *ok { ret.clone() } else { "err".to_string() };
+            if class != expected_class || tree != *after {
+                let calls_txt: Vec<String> = seq.iter().map(|&c| self.call_text(&model.calls[c]).0).collect();
+                self.mm.push(if class != expected_class { "fs_result" } else { "fs_state" }, json!({
+                    "initial_tree": model.inits[ini]["s"], "calls": calls_txt, "failing_step": step + 1,
+                    "f": model.calls[ci]["f"], "p": model.calls[ci]["p"], "q": model.calls[ci]["q"],
+                    "route": if route == 0 { "prog" } else { "host" },
+                    "tree_before": state, "expected": {"ok": ok, "returns": expected_class, "tree": after},
+                    "observed": {"returns": class, "raw": out, "tree": tree}}));
+                return false;
+            }
+            if *ok { self.ok_calls += 1; }
+            if self.samples.len() < 3 && *ok && step == 1 && self.behaviours % 997 == 5 {
+                let calls_txt: Vec<String> = seq.iter().map(|&c| self.call_text(&model.calls[c]).0).collect();
+                self.samples.push(json!({"initial_tree": model.inits[ini]["s"], "calls": calls_txt, "tree_after_step_2": after}));
+            }
+            state = after.clone();
+        }
+        true
+    }
+
+    fn all(&mut self, ini: usize, prefix: &mut Vec<usize>, depth: usize) {
+        if prefix.len() == depth {
+            return;
+        }
+        for ci in 0..self.model.calls.len() {
+            prefix.push(ci);
+            self.behaviour(ini, prefix);
+            let p2 = prefix.clone();
+            let mut p2 = p2;
+            self.all(ini, &mut p2, depth);
+            prefix.pop();
+        }
+    }
+}
+
+fn fs_mode(dir: &str, scratch: &str, obs_path: &str, summary: &str, depth: usize, sample3: usize, ro: &str) -> Value {
+    fs::create_dir_all(scratch).unwrap();
+    let root = PathBuf::from(scratch).join("tree");
+    let _ = fs::create_dir_all(&root);
+    std::env::set_current_dir(scratch).unwrap();
+    let enforced = permissions_enforced(Path::new(scratch));
+    let model = load_fs(dir);
+    let lib = Lib::new();
+    let mut run = FsRun { lib: &lib, root: root.clone(), model: &model, progs: HashMap::new(), fns: HashMap::new(),
+        mm: Mismatches::new(60), results: HashMap::new(), behaviours: 0, calls: 0, ok_calls: 0, counter: 0, samples: vec![] };
+    let mut skipped_ro = 0u64;
+    let mut rng = Rng::from_env(0xF5);
+    let ncalls = model.calls.len();
+    for ini in 0..model.inits.len() {
+        let has_ro = model.inits[ini]["s"].as_array().unwrap().iter().any(|it| it["ro"] == true);
+        if (has_ro && (ro == "skip" || !enforced)) || (!has_ro && ro == "only") {
+            if has_ro { skipped_ro += 1; }
+            continue;
+        }
+        run.all(ini, &mut vec![], depth);
+        for _ in 0..sample3 {
+            let seq: Vec<usize> = (0..depth + 1).map(|_| rng.below(ncalls)).collect();
+            run.behaviour(ini, &seq);
+        }
+    }
+    wipe(&root);
+    let _ = fs::remove_dir_all(&root);
+    let mut obs: Vec<Value> = run.results.values().cloned().collect();
+    obs.sort_by_key(|v| v["id"].to_string());
+    write_lines(obs_path, &obs);
+    write_json(summary, &json!({"behaviours": run.behaviours, "calls": run.calls, "successful_calls": run.ok_calls,
+        "permissions_enforced": enforced, "initial_trees_skipped_unwritable": skipped_ro, "distinct_results": obs.len(),
+        "uid_is_root": !enforced, "mismatch_counts": run.mm.counts(), "mismatches": run.mm.items(), "samples": run.samples}));
+    json!({"done": "fs"})
+}
+
+// ------------------------------------------------------------------ entry
+
+pub fn run(args: &[String]) -> Value {
+    let a = |i: usize| args.get(i).cloned().unwrap_or_else(|| panic!("stdlibx: missing argument {i}"));
+    match args.first().map(String::as_str) {
+        Some("table") => table(&a(1)),
+        Some("replay") => replay(&a(1), &a(2), &a(3), &a(4)),
+        Some("random") => random(&a(1), a(2).parse().unwrap(), &a(3), &a(4), &a(5)),
+        Some("stdin") => stdin_mode(&a(1), a(2).parse().unwrap(), &a(3), &a(4)),
+        Some("fs") => fs_mode(&a(1), &a(2), &a(3), &a(4), a(5).parse().unwrap(), a(6).parse().unwrap(), &a(7)),
+        _ => json!({"error": "usage: vh stdlibx table|replay|random|stdin|fs ..."}),
+    }
 }
